@@ -145,6 +145,12 @@ def c10_scope(tier):
     fan2 = H + "".join(f"Signal r{i} = (x * {i + 2}) + y;\n" for i in range(4))
     P.append(("fanout-two-sources", fan2))
     P.append(("diamond", H + "Signal t = x + 1;\nSignal u = t * 2;\nSignal v = t * 3;\nSignal r = u + v;\n"))
+    for k in ((2, 3, 4) if tier == "quick" else range(1, 9)):
+        lines = ['Signal a = ("signal-A", 10);', "Signal x = a + 1;"]
+        for i in range(k):
+            lines.append(f"Signal y{i} = x * {i + 1};")
+            lines.append(f"Signal z{i} = x + y{i};")
+        P.append((f"same-type-diamond{k}", "\n".join(lines) + "\n"))
     if tier != "quick":
         for k in range(2, 9):
             P.append((f"fan{k}", 'Signal x = ("signal-A", 6);\nSignal y = ("signal-A", 2);\n' + "".join(
